@@ -1,7 +1,7 @@
 """Registry: obligation id -> spec, property id -> obligations it is decided by."""
-from . import uni, out
+from . import uni, out, io, tok
 
-MODS = (uni, out)
+MODS = (uni, out, io, tok)
 OBLIGATIONS = {}
 for mod in MODS:
     for ob in mod.OBLIGATIONS:
